@@ -441,6 +441,66 @@ class RustGen:
         return "\n\n".join(items) + "\n"
 
 
+WRAPS = ["Vec<%s>", "Option<%s>", "Box<%s>", "HashMap<String, %s>", "Option<Box<%s>>", "Vec<Option<%s>>", "(%s, u8)", "BTreeMap<String, Vec<%s>>",
+         "HashSet<%s>", "Result<%s, String>", "%s"]
+
+
+def type_graph_source(names, edges, roots, wrap_shift=0):
+    """serde structs `names[i]` with one field per edge (i, j) (the field type wraps names[j] in a container,
+    cycling through WRAPS) and one command per root returning that type"""
+    out = ["use serde::{Serialize, Deserialize};", "use std::collections::{HashMap, BTreeMap, HashSet};"]
+    k = wrap_shift
+    for i, n in enumerate(names):
+        fields = []
+        for (a, b) in edges:
+            if a == i:
+                fields.append("    pub f%d: %s," % (len(fields), WRAPS[k % len(WRAPS)] % names[b]))
+                k += 1
+        fields.append("    pub id: u32,")
+        out.append("#[derive(Debug, Clone, Serialize, Deserialize)]\npub struct %s {\n%s\n}" % (n, "\n".join(fields)))
+    for r in roots:
+        out.append("#[tauri::command]\npub fn get_%s(x: %s) -> Result<%s, String> { todo!() }" % (names[r].lower(), names[r], names[r]))
+    return "\n\n".join(out) + "\n"
+
+
+def type_graph_cases(tier, rng):
+    """(tag, source): recursive and mutually recursive type graphs of every small shape, wide and deep acyclic ones"""
+    cases = []
+    names3 = ["Alpha", "Meta", "Zeta"]       # the sorted order of dependency names matters to the DFS
+    pairs = [(a, b) for a in range(3) for b in range(3)]
+    rootsets = [[0], [1], [2], [0, 1], [0, 2], [1, 2], [0, 1, 2]]
+    for mask in range(1 << len(pairs)):
+        edges = [p for i, p in enumerate(pairs) if mask >> i & 1]
+        if tier == "quick":
+            rs = [rootsets[mask % len(rootsets)], rootsets[(mask // 7 + 3) % len(rootsets)]]
+        else:
+            rs = rootsets
+        for roots in rs:
+            cases.append(("typegraph-3", type_graph_source(names3, edges, roots, wrap_shift=mask)))
+    # the shapes named in reports: self-loop with a sibling sorting before / after the type that closes the cycle
+    for sib in ("Meta", "Zeta", "Aaa", "TreeNodf"):
+        cases.append(("typegraph-tree", type_graph_source(["TreeNode", sib], [(0, 1), (0, 0)], [0])))
+        cases.append(("typegraph-tree", type_graph_source(["TreeNode", sib], [(0, 0), (0, 1), (1, 0)], [0, 1])))
+    pool = ["Aa", "Bb", "Cc", "Dd", "Ee", "Mm", "Nn", "Yy", "Zz"]
+    for _ in range(300 if tier == "quick" else 5000):
+        n = rng.randint(4, 7)
+        names = rng.sample(pool, n)
+        dens = rng.choice([0.15, 0.3, 0.5])
+        edges = [(a, b) for a in range(n) for b in range(n) if rng.random() < dens]
+        roots = rng.sample(range(n), rng.randint(1, 3))
+        cases.append(("typegraph-rand", type_graph_source(names, edges, roots, wrap_shift=rng.randrange(11))))
+    # wide and deep acyclic graphs, and a long cycle
+    for width in (40, 150):
+        names = ["Root"] + ["W%03d" % i for i in range(width)]
+        cases.append(("typegraph-wide", type_graph_source(names, [(0, i) for i in range(1, width + 1)], [0])))
+    for depth in (60, 250):
+        names = ["D%03d" % i for i in range(depth)]
+        cases.append(("typegraph-deep", type_graph_source(names, [(i, i + 1) for i in range(depth - 1)], [0])))
+        cases.append(("typegraph-deep", type_graph_source(names[::-1], [(i, i + 1) for i in range(depth - 1)], [0])))
+        cases.append(("typegraph-ring", type_graph_source(names, [(i, (i + 1) % depth) for i in range(depth)] + [(0, depth // 2)], [0, depth // 3])))
+    return cases
+
+
 NOT_RUST = [
     "", " ", "\n\n\n", "﻿", "﻿#[tauri::command]\nfn a() {}\n", "#!/usr/bin/env run-cargo-script\nfn main() {}\n",
     "hello world, this is not rust\n", "{\"json\": [1, 2, {\"a\": null}]}\n", "<html><body>é</body></html>\n",
